@@ -425,11 +425,28 @@ def build_round(rd, threads):
             break
     order = [e.thr + 1 for e in sorted(allev, key=lambda e: (anchor[id(e)], e.thr))]
     queues = [(thr + 1, tr) for thr, tr in sorted(threads.items())]
-    return pf, queues, order
+    # the invocations from a queue, in the order of their first recorded events: an event recorded while the thread is
+    # outside any harness-level call begins one; the xchg of dbpd_queue ends it
+    starts = []
+    for thr, tr in threads.items():
+        depth, inside = 0, False
+        for e in tr:
+            if e.kind == 100:
+                depth += 1
+            elif e.kind == 101:
+                depth -= 1
+            elif depth == 0:
+                if not inside:
+                    starts.append((anchor[id(e)], thr + 1))
+                    inside = True
+                if e.kind == 3 and e.obj % 2 == 0 and e.off == OFF["queue"]:
+                    inside = False
+    ents = [t for (_, t) in sorted(starts)]
+    return pf, queues, order, ents
 
 
 def coq_replay(name, jobs, window=24, workers=4, chunk_events=6000, timeout=900):
-    """jobs: [(pf, preset_cancel, queues, order)]; returns the int lists of BlockR.replay"""
+    """jobs: [(pf, preset_cancel, queues, order, entry order)]; returns the int lists of BlockR.replay"""
     from concurrent.futures import ThreadPoolExecutor
     chunks, i = [], 0
     while i < len(jobs):
@@ -443,7 +460,7 @@ def coq_replay(name, jobs, window=24, workers=4, chunk_events=6000, timeout=900)
     def one(arg):
         ci, part = arg
         defs, calls = [], []
-        for k, (pf, preset, queues, order) in enumerate(part):
+        for k, (pf, preset, queues, order, ents) in enumerate(part):
             qs = ["(%d, [%s])" % (t, "; ".join(e.coq() for e in tr)) for t, tr in queues]
             if preset:
                 # DBF_CANCELED preset on a DBF_PERFORM record (white-box): a cancel by a thread of its own, before everything
@@ -451,7 +468,7 @@ def coq_replay(name, jobs, window=24, workers=4, chunk_events=6000, timeout=900)
                 order = [999999] * 3 + order
             defs.append("Definition qs%d : list (Z * list event) := [%s]." % (k, ";\n".join(qs)))
             defs.append("Definition ord%d : list Z := [%s]." % (k, "; ".join(str(t) for t in order)))
-            calls.append("replay %s %d qs%d ord%d" % ("true" if pf else "false", window, k, k))
+            calls.append("replay %s %d qs%d [%s] ord%d" % ("true" if pf else "false", window, k, "; ".join(str(t) for t in ents), k))
         body = defs + ["Eval vm_compute in [%s]." % "; ".join(calls)]
         ok, vals, raw = driver.coq_eval("%s_%d" % (name, ci), IMPORTS + ["BlockR"], "\n".join(body) + "\n", timeout=timeout)
         if not ok or len(vals) != 1:
@@ -667,8 +684,8 @@ def correspond(ctx):
             mism.append({"what": "a recorded round cannot be put in a global order: " + b[1],
                          "detail": {"seed": key[0], "round": key[1], "permille": perm_of.get(key[0]), "rounds": rounds}})
             continue
-        pf, queues, order = b
-        jobs.append((pf, pf and rd["cancels"] > 0, queues, order))
+        pf, queues, order, ents = b
+        jobs.append((pf, pf and rd["cancels"] > 0, queues, order, ents))
         jmeta.append((key, rd, ths))
     for r, (key, rd, ths) in zip(coq_replay("c19_replay", jobs) if jobs else [], jmeta):
         d = judge_replay(rd, ths, r)
@@ -687,10 +704,10 @@ def correspond(ctx):
     total.update(rp)
     # standing negative tests of the replay (Proofs/BlockR_proofs.v neg*_qs): inconsistent rounds must be refused
     ok, vals, raw = driver.coq_eval("c19_negative", IMPORTS + ["BlockR", "Block_proofs", "BlockR_proofs"],
-                                    "Eval vm_compute in [nth 1 (replay false 8 neg1_qs [8; 8]) 0; "
-                                    "nth 1 (replay false 8 neg2_qs [7; 7; 7; 11; 11; 11]) 0; "
-                                    "nth 1 (replay false 8 neg3_qs [6; 6; 6; 5; 5; 5; 5; 5; 5]) 0; "
-                                    "nth 1 (replay false 8 neg4_qs [11; 11; 11; 11; 11]) 0].\n")
+                                    "Eval vm_compute in [nth 1 (replay false 8 neg1_qs [] [8; 8]) 0; "
+                                    "nth 1 (replay false 8 neg2_qs [11] [7; 7; 7; 11; 11; 11]) 0; "
+                                    "nth 1 (replay false 8 neg3_qs [] [6; 6; 6; 5; 5; 5; 5; 5; 5]) 0; "
+                                    "nth 1 (replay false 8 neg4_qs [11] [11; 11; 11; 11; 11]) 0].\n")
     left = driver.ints(vals[0]) if ok and vals else []
     total["negative_replay_tests_refused"] = "%d/4" % sum(1 for x in left if x > 0)
     if len(left) != 4 or any(x == 0 for x in left):
